@@ -194,3 +194,18 @@ more("C17", "Verify scenarios with correctly signed tokens whose exp/nbf are JSO
 more("C18", "Quick tier: 12 threads (more than a pool of 8).")
 more("C19", "A third of the cells verify the same token a second time on the same checker (what the callback did to the first jwt_t must not reach the second verification).")
 more("C20", "Library-as-oracle stage: 228 hand-made HS tokens (27 header serialisations incl. white space, member order, escapes, extra members, invalid shapes x 15 payload serialisations, plus broken signatures) get jwt_checker_verify's verdict from a helper; jwt-verify must exit 0 exactly for those, as argument, on stdin and as one list.")
+
+# ---- round 12 (breaks that need two conditions at once) ----
+more("C02", "A quarter of the callback cells apply the documented context-only update (setcb with a NULL callback and a context) after registration; a quarter of the builder cells carry an application-set alg header (string or JSON template): the token names the pinned algorithm, for a key-less builder 'none'.")
+more("C03", "A quarter of the callback cells apply the context-only setcb update after registration (the callback, and with it the key, must stay); a quarter of the builder cells carry an application-set alg header.")
+more("C04", "The time claims come before, after or between the string claims in the payload (member order varies).")
+more("C05", "A quarter of the round trips verify on a checker that has just refused something else (a spoiled copy of the token, or text that is no token) without error_clear.")
+more("C06", "Unknown alg names made of control characters (JSON escapes of LF, ESC, TAB, DEL ...), alone or after printable text, in the lengths of the other unknown names.")
+more("C07", "The provider in force alternates between blocks of documents (loading, inspecting and freeing a keyring is provider-independent; LeakSanitizer sees what a provider-keyed free path leaves behind).")
+more("C09", "The matrix runs a second time with every fresh heap block pre-filled with 0x01 (ASan malloc_fill_byte): a size or flag read before it was written looks like a plausible positive number, so a floor decision taken on it shows up as a key below the floor being used.")
+more("C12", "Each asymmetric key also verifies through its private JWK carrying key_ops/use members (sign only, verify only, both, empty, encrypt, use=enc): loaded under either provider, used under either.")
+more("C13", "The reused checker receives every token in one and the same receive buffer; drivers run under the harness' tracking allocator (foreign frees, writes after free inside the uninstrumented JSON library).")
+more("C15", "Before every set-up macro the jwt_value_t holds leftovers of an earlier use (all ones, 0xA5, zeros); the driver runs under the tracking allocator.")
+more("C16", "The driver runs under the tracking allocator installed through jwt_set_alloc: every block freed must have come from it (foreign free), and freed blocks are pattern-filled and checked when the next case begins (write after free).")
+more("C17", "Freed blocks are filled with 0xDD and kept until the scenario run is over: a changed pattern is a write after free, also when it happens inside the uninstrumented JSON library (~650 000 blocks checked per quick run).")
+more("C20", "Alg-option matrix: -a/--algorithm in every spelling x keys with and without an alg of their own x HS256/384/512 tokens; what jwt_checker_setkey(option alg, key) and jwt_checker_verify say (helper) is what the tool's exit status must say.")
